@@ -247,7 +247,7 @@ def gen_traces(ctx, shards=8, name="trace", extra=None):
         ctx.classes[k] = ctx.classes.get(k, 0) + v
     for s in summ.get("samples") or []:
         if len(ctx.samples) < 6:
-            ctx.samples.append(slim(s))
+            ctx.samples.append(slim_sample(s))
     log("  B3 gen: %d histories, %d events, %d classes  %.1fs" % (summ["histories"], summ["events"], len(summ["classes"]), time.time() - t))
     return summ
 
@@ -261,6 +261,15 @@ def slim(e, maxlen=48):
             return [slim(x, maxlen) for x in e[:maxlen]] + ["...(%d more)" % (len(e) - maxlen)]
         return [slim(x, maxlen) for x in e]
     return e
+
+
+def slim_sample(e):
+    """A sample for the evidence file: arrays shortened until the sample is of readable size."""
+    for m in (48, 24, 12, 6, 3):
+        out = slim(e, m)
+        if len(json.dumps(out)) <= 6000:
+            return out
+    return out
 
 
 def validate(ctx, module, summ, sigfn, timeout=1800, xmx="3g", par=8):
@@ -314,7 +323,7 @@ def table_compare(ctx, tabfile, name="table", sigfn=None, as_behaviours=False):
         ctx.classes[k] = ctx.classes.get(k, 0) + v
     for s in rep.get("samples") or []:
         if len(ctx.samples) < 8:
-            ctx.samples.append(slim(s))
+            ctx.samples.append(slim_sample(s))
     for mm in rep.get("mismatches") or []:
         reason = mm.get("reason", "table-mismatch")
         sig = sigfn(mm, reason) if sigfn else "%s/%s" % (mm.get("op", "table"), reason)
